@@ -165,9 +165,66 @@ class Engine:
         g = self._gf.get(fn.name)
         if g is None:
             self._gf[fn.name] = None  # recursion guard
-            g = GF2(fn, entry=self._closure_entry(fn), summaries=self.summary_at_call)
+            g = GF2(fn, entry=self._closure_entry(fn), summaries=self.summary_at_call, oklen=self.oklen_at_call)
             self._gf[fn.name] = g
         return g
+
+    # ---------------------------------------------------------------- "Ok implies len(param)" postconditions
+    def oklen_summary(self, fn):
+        """{param_no: IS} such that whenever fn returns Ok/Some, len(param) lies in IS; None if nothing is known.
+        Sound only if every success value of fn is built by an Ok(..)/Some(..) aggregate in fn itself."""
+        if not hasattr(self, "_oklen"):
+            self._oklen = {}
+        if fn.name in self._oklen:
+            return self._oklen[fn.name]
+        self._oklen[fn.name] = None
+        ret = fn.ret or ""
+        if not (("Result<" in ret) or ("Option<" in ret)) or fn.kind == "closure":
+            return None
+        want = "Ok" if "Result<" in ret.split("Option<")[0] or ret.lstrip().startswith(("core::result::Result", "Result")) else "Some"
+        adt = "core::result::Result" if want == "Ok" else "core::option::Option"
+        # every definition of the return place
+        oks = []
+        for (bb, idx, kind, payload) in fn.defs().get(0, []):
+            if kind == "assign" and payload["k"] == "agg" and payload.get("adt") == adt:
+                if payload.get("v") == want:
+                    oks.append((bb, idx))
+                continue
+            if kind == "call" and "from_residual" in (callee_name(payload) or ""):
+                continue   # `?`: an error / None is returned
+            return None    # success values may come from elsewhere (tail call, copy): unknown
+        if not oks:
+            return None
+        g = self.gf(fn)
+        if g is None:
+            return None
+        out = {}
+        for j in range(1, fn.nargs + 1):
+            ty = fn.local_ty(j) or ""
+            if not (ty.startswith("&[") or "Vec<" in ty.split("&")[-1][:8] or ty.startswith("&alloc::vec::Vec<")):
+                continue
+            total = None
+            for (bb, idx) in oks:
+                stt = g.block_in.get(bb)
+                if stt is None:
+                    continue
+                stt = stt.copy()
+                for stm in fn.stmts(bb)[:idx]:
+                    if stm["k"] == "assign":
+                        g._assign(stt, stm)
+                v = stt.get(("LEN", "_%d" % j))
+                total = v if total is None else total.union(v)
+            # the parameter must not be re-bound / mutated: slices are immutable borrows
+            if total is not None and not total.is_top() and ty.startswith("&[") and not ty.startswith("&mut"):
+                out[j] = total
+        self._oklen[fn.name] = out or None
+        return self._oklen[fn.name]
+
+    def oklen_at_call(self, t):
+        f = self.prog.fn_opt(callee_name(t) or "")
+        if f is None:
+            return None
+        return self.oklen_summary(f)
 
     # ---------------------------------------------------------------- integer return summaries
     INT_RET = re.compile(r"(?:Result|Option)<(u8|u16|u32|u64|usize|i8|i16|i32|i64|isize)[,>]|^(u8|u16|u32|u64|usize|i8|i16|i32|i64|isize)$")
